@@ -1,4 +1,11 @@
-"""Helpers for the fail-closed table translator."""
+"""Helpers for the fail-closed table translator.
+
+A *table module* is any file harness/tables_<name>.py.  It registers one or more sections
+with `@section("FileStem")`; each section function receives the repository path and returns
+Coq text; all sections registered for the same FileStem are concatenated into
+coq/theories/Gen/<FileStem>.v.  A section that cannot recognise the shape of the source
+raises Abort (or any exception): the file is then *removed*, so every proof that depends on
+it stops compiling -- a broken tie, never a guess."""
 import ast
 import os
 
@@ -22,16 +29,39 @@ def module_assign(tree, name):
     raise Abort("module-level assignment to %s not found" % name)
 
 
+def find_def(tree, name, cls=None):
+    """FunctionDef `name` at module level, or inside class `cls`."""
+    body = tree.body
+    if cls is not None:
+        for node in tree.body:
+            if isinstance(node, ast.ClassDef) and node.name == cls:
+                body = node.body
+                break
+        else:
+            raise Abort("class %s not found" % cls)
+    for node in body:
+        if isinstance(node, (ast.FunctionDef, ast.AsyncFunctionDef)) and node.name == name:
+            return node
+    raise Abort("def %s not found" % name)
+
+
 def coq_string(s):
-    # list of code points
+    """Python str -> Coq list of code points (list Z)."""
     return "[" + "; ".join("%d" % ord(c) for c in s) + "]%Z"
 
 
-SECTIONS = []
+def coq_ascii_string(s):
+    """Python str (printable ASCII) -> Coq string literal."""
+    if any(ord(c) < 32 or ord(c) > 126 for c in s):
+        raise Abort("non printable-ASCII character in %r" % s)
+    return '"' + s.replace('"', '""') + '"%string'
 
 
-def section(fn):
-    SECTIONS.append(fn)
-    return fn
+SECTIONS = []   # (file stem, function)
 
 
+def section(stem):
+    def deco(fn):
+        SECTIONS.append((stem, fn))
+        return fn
+    return deco
